@@ -1107,6 +1107,15 @@ class HttpPayloadParser:
                 # toss the CRLF at the end of the chunk
                 if self._chunk == ChunkState.PARSE_CHUNKED_CHUNK_EOF:
                     if self._lax and chunk.startswith(b"\r"):
+                        if (
+                            len(chunk) <= len(SEP)
+                            and chunk[1:] == SEP[: len(chunk) - 1]
+                        ):
+                            # Keep the CR until the whole line end has
+                            # arrived, so that it is only ever skipped once.
+                            self._chunk_tail = chunk
+                            self._paused = False
+                            return PayloadState.PAYLOAD_NEEDS_INPUT, b""
                         chunk = chunk[1:]
                     if chunk[: len(SEP)] == SEP:
                         chunk = chunk[len(SEP) :]
